@@ -17,8 +17,8 @@ Expected(e, t) ==
     [] e.op = "remove" -> RemoveSub(t, e.i)
     [] e.op = "set"    -> SetStatus(t, e.i, e.st)
     [] e.op = "add"    -> AddChild(t, e.i, e.u, e.from)
-    [] e.op = "dedupe" -> Dedupe(t, Fix)
-    [] e.op = "cac"    -> CompleteAndCheck(t).t
+    [] e.op \in {"dedupe", "dedupe-any"} -> Dedupe(t, Fix)
+    [] e.op \in {"cac", "cac-any"} -> CompleteAndCheck(t).t
 
 Init == l = 1 /\ tree = <<>> /\ bad = FALSE
 
@@ -27,7 +27,7 @@ Conforms(e) ==
   LET before == IF IsStart(e) THEN <<>> ELSE ToTree(e.before) IN
   /\ (IsStart(e) \/ before = tree)      \* k = 0: stand-alone test on a rebuilt tree
   /\ ToTree(e.after) = Expected(e, before)
-  /\ (e.op # "cac" \/ e.r = CompleteAndCheck(before).r)
+  /\ (e.op \notin {"cac", "cac-any"} \/ e.r = CompleteAndCheck(before).r)
   /\ ~HasKey(e, "err")
 
 \* after the first non-conforming event of a history the rest of that history is not judged
